@@ -88,6 +88,11 @@ def selftest(pid, jobs=16):
     mod = importlib.import_module(f'scverif.rules.{pid.lower()}')
     muts = list(getattr(mod, 'MUTANTS', []))
     reps = list(getattr(mod, 'REPAIRS', []))
+    for e in getattr(mod, 'EQUIV', []):
+        e = dict(e)
+        e.setdefault('key_contains', '\x00never')
+        e.setdefault('rule', 'equiv')
+        reps.append(e)
     try:
         base = _findings(pid, None)
     except AnalysisError as e:
